@@ -13,6 +13,7 @@ from checklib import *
 # property table.  kind t1: traced units + reflective theorems + correspondence.
 PROPS = {
     'C01': dict(kind='t1', units='C01', corr_quick=100, corr_thorough=5000),
+    'C19': dict(kind='t1', units='C19', corr_quick=300, corr_thorough=20000),
     'C02': dict(kind='t1', units='C02', corr_quick=60, corr_thorough=4000),
     'C04': dict(kind='t1', units='C04', corr_quick=200, corr_thorough=10000),
     'C08': dict(kind='t1', units='C08', corr_quick=200, corr_thorough=10000),
@@ -91,6 +92,12 @@ def run_t1(prop, cfg, tier, seed):
             failing = list(all_thms)
             notes.append('lake build failed outside the Props module: ' + build_out[-800:])
         log('lake build %s: rc=%d, %.1fs, %d/%d theorems check' % (cfg['modules'], rc, build_s, len(all_thms) - len(failing), len(all_thms)))
+    # 2b. recorded findings: proved negations; not obligations (a repaired glm makes them fail to build)
+    fmod = os.path.join(LEAN, 'GlmVerif', 'Findings', prop + '.lean')
+    if os.path.exists(fmod) and not broken_tie:
+        rcf, outf, _ = lake_build(['GlmVerif.Findings.' + prop])
+        notes.append('findings module GlmVerif.Findings.%s: %s' % (prop, 'negations proved' if rcf == 0 else 'finding no longer reproduces (module does not build)'))
+        if rcf != 0: log('finding no longer reproduces: GlmVerif.Findings.' + prop)
     # 3. audit (only meaningful when the modules built)
     axioms, audit_problems = {}, []
     if not broken_tie and not failing:
@@ -127,12 +134,14 @@ def run_t1(prop, cfg, tier, seed):
     model_mismatch = [l for l in corr_msgs if l.startswith('MISMATCH')]
     # 5. a theorem no longer checks / the tie is broken: search model and implementation for a failing input
     unexplained = []
-    if (failing or broken_tie or audit_problems or model_mismatch) and okd and os.path.exists(units_path) and not err:
+    if (failing or broken_tie or audit_problems or model_mismatch or known) and okd and os.path.exists(units_path) and not err:
         rc, out = sh([DRIVER, 'spec', prop, units_path, str(seed)], timeout=1800)
         fails = re.findall(r'^FAIL (\S+) (\S+)', out, flags=re.M)
         cex = {}
-        for m in re.finditer(r'^CEX (\S+) comp (\d+) in #\[([^\]]*)\] model (\d+) spec (\d+)', out, flags=re.M):
+        cex_plain = {}
+        for m in re.finditer(r'^CEX (\S+) comp (\d+) in #\[([^\]]*)\] model (\d+) spec (\d+)(?: fam (\S+) plain (\w+))?', out, flags=re.M):
             cex[m.group(1)] = (int(m.group(2)), [int(x) for x in m.group(3).split(',') if x.strip()], int(m.group(4)), int(m.group(5)))
+            cex_plain[m.group(1)] = (m.group(7) != 'false', m.group(6))
         failing_fams = set()
         for fam, unit in fails:
             failing_fams.add(fam)
@@ -140,10 +149,17 @@ def run_t1(prop, cfg, tier, seed):
                 comp, bits, mval, sval = cex[unit]
                 outs = eval_unit(bins, unit, 'f64', bits)
                 k = is_known(known, unit, comp)
-                if outs is not None and comp < len(outs) and outs[comp] != sval:
+                glm_val = outs[comp] if (outs is not None and comp < len(outs)) else None
+                if outs is not None and not cex_plain.get(unit, (True, ''))[0]:
+                    # the family compares an expression built from the outputs: apply it to what glm returned
+                    rc2, o2 = sh([DRIVER, 'postval', prop, unit, str(comp)] + [str(b) for b in bits] + ['--'] + [str(b) for b in outs], timeout=120)
+                    glm_val = None
+                    for mm in re.finditer(r'POSTVAL (\S+) glm (\d+) spec (\d+)', o2):
+                        if mm.group(1) == cex_plain[unit][1]: glm_val, sval = int(mm.group(2)), int(mm.group(3))
+                if glm_val is not None and glm_val != sval:
                     if k: known_hits[(unit, k['what'])] = k; continue
                     violations.append(dict(property=prop, kind='glm-output-differs-from-specification', unit=unit, type='f64', component=comp,
-                                           input_bits=bits, spec_bits=sval, glm_bits=outs[comp], model_bits=mval,
+                                           input_bits=bits, spec_bits=sval, glm_bits=glm_val, model_bits=mval,
                                            failing_theorem='%s_ok' % fam, replay='trace unit binary: eval %s f64 <input_bits>' % unit))
                     continue
             if is_known(known, unit, -1) or any(kk.get('unit') == unit for kk in known):
